@@ -184,7 +184,13 @@ impl ProgGen {
     fn new_voice(&mut self, rng: &mut Rng) -> Voice {
         let kind = *rng.pick(&self.cfg.kinds);
         let id = self.fresh_id();
-        gen_voice(rng, id, kind, self.cfg.n_in, self.cfg.max_delay)
+        let mut v = gen_voice(rng, id, kind, self.cfg.n_in, self.cfg.max_delay);
+        // call depth: one site in four is reached through 1..5 pass-through functions, so that
+        // composite sites (and with them inner edits) also live four and more calls below dsp
+        if !matches!(kind, Kind::InMem | Kind::InDly) && rng.chance(1, 4) {
+            v.wrap = rng.range(1, 5) as u32;
+        }
+        v
     }
 
     /// Route a site to a channel: prefer an empty channel, else (mix) add to a random one.
@@ -328,7 +334,7 @@ impl ProgGen {
                 }
                 80..=87 if n >= 1 => {
                     let pos = rng.below(n as u64) as usize;
-                    if p.sites[pos].wrap < 2 && !matches!(p.sites[pos].kind, Kind::Duo | Kind::DlySrc | Kind::FeedDly | Kind::InMem | Kind::InDly) {
+                    if p.sites[pos].wrap < 4 && !matches!(p.sites[pos].kind, Kind::Duo | Kind::DlySrc | Kind::FeedDly | Kind::InMem | Kind::InDly) {
                         let old_id = p.sites[pos].id;
                         let new_id = self.fresh_id();
                         p.sites[pos].wrap += 1;
